@@ -64,14 +64,14 @@ def detect(m, props):
     res = {"id": name, "checks": {}}
     for p in (props or [prop]):
         env = dict(os.environ, VERIF_REPO=wt)
-        rc, out = sh(["/verif/bin/check", p], env=env)
+        rc, out = sh([os.path.join(os.path.dirname(os.path.abspath(__file__)), "check"), p], env=env)
         viol = [l for l in out.splitlines() if l.startswith("VIOLATION")]
         und = [l for l in out.splitlines() if l.startswith("UNDECIDED")]
         summary = [l for l in out.splitlines() if re.match(r"C\d+ (quick|thorough):", l)]
         details = []
         for v in viol[:6]:
             mm = re.search(r"replay=(\S+)", v)
-            if mm and os.path.exists(mm.group(1)):
+            if mm and os.path.exists(mm.group(1)):   # (replay files of concurrent runs may overwrite each other: informational only)
                 try:
                     d = json.load(open(mm.group(1)))
                     details.append({"obligations": d.get("failed_obligations"), "backend": d.get("backend"), "unit": d.get("unit"),
